@@ -28,6 +28,13 @@ MUTATORS = ["group", "object", "data", "values", "rename", "flag", "move", "copy
 CONTROL = ["reopen", "gc", "hold", "release", "observe"]
 
 
+def diff_cond(a, b) -> str:
+    """Discriminating tag for a value difference (keeps known-finding signatures narrow)."""
+    if isinstance(a, list) and len(a) == 4 and a[0] == "arr" and a[2] == [1] and isinstance(b, str) and a[3] == [b]:
+        return ":one-entry-array-vs-str"
+    return ""
+
+
 class OpError(Exception):
     """A library exception on an operation that is valid by construction."""
 
@@ -329,7 +336,7 @@ class TreeRun:
                 self.fail("C01", "resurrected-or-extra", opkind, cls, where,
                           f"{cls} {uid} is in the {where} tree but not in the model")
             else:
-                self.fail("C01", "field-differs", opkind, cls, f"{field}@{where}",
+                self.fail("C01", "field-differs", opkind, cls, f"{field}{diff_cond(a, b)}@{where}",
                           f"{cls} {uid} field {field}: model={a!r} {where}={b!r}")
             if self.stopped:
                 return
@@ -383,7 +390,7 @@ class TreeRun:
                     self.fail("C01", "roundtrip-resurrected", "reopen", cls, "",
                               f"{cls} {uid} not in the live tree appears after re-open")
                 else:
-                    self.fail("C01", "roundtrip-differs", "reopen", cls, field,
+                    self.fail("C01", "roundtrip-differs", "reopen", cls, field + diff_cond(a, b),
                               f"{cls} {uid} {field}: live={a!r} reopened={b!r}")
                 if self.stopped:
                     return
@@ -488,13 +495,13 @@ class TreeRun:
             assoc, count = "OBJECT", 1
         kind = op["kind"]
         n_given = max(0, count - op.get("short", 0))
-        if kind == "text" and (count == 1) and not self.program.get("allow_known"):
+        if kind == "text" and n_given == 0:
+            n_given = count
+        if kind == "text" and n_given == 1 and not self.program.get("allow_known"):
             # known finding C01/C08: a one-entry text array reads back as a bare string
             self.res.count("excluded_by_finding")
             kind = "float"
         vals = (list(op["vals"]) + [None] * count)[:n_given]
-        if kind in ("text",) and n_given == 0:
-            vals = (list(op["vals"]) + [None] * count)[:count]
         arr, expected = F.make_values(kind, vals, count)
         if kind == "text":
             expected = [("" if v is None else f"s{v}") for v in vals]  # text arrays are stored as given (no padding rule)
@@ -554,12 +561,14 @@ class TreeRun:
             return False
         n_given = max(0, count - op.get("short", 0))
         if kind == "text":
-            n_given = count
-            if count == 1 and not self.program.get("allow_known"):
+            n_given = max(n_given, 1)
+            if n_given == 1 and not self.program.get("allow_known"):
                 self.res.count("excluded_by_finding")
                 return False
         vals = (list(op["vals"]) + [None] * count)[:n_given]
         arr, expected = F.make_values(kind, vals, count)
+        if kind == "text":
+            expected = [("" if v is None else f"s{v}") for v in vals]  # stored as given
         ent = wd.entity(uid)
         onfile = ent.on_file
         try:
@@ -814,7 +823,8 @@ class TreeRun:
                                   f"type attribute {key}: source={ptype.get(key)!r} copy={ltype.get(key)!r}")
             if self.stopped:
                 return
-            twd.adopt(c_uid, live, swd.kind[s_uid])
+            # copy equality is owned by C12; for the model keep what the live copy shows from now on
+            twd.adopt(c_uid, snap_entity(c_ent), swd.kind[s_uid])
 
     def ordered_children(self, wd, uid):
         """Children of a model node in the live child order (needed to pair copies)."""
@@ -942,7 +952,9 @@ class TreeRun:
             return True
         ents = [wd.entity(c) for c in chosen]
         self.call("PropertyGroup", pg[0].remove_properties, ents)
-        wd.scrub_pgs(obj_uid, chosen)
+        pg_model["props"] = [p for p in pg_model["props"] if p not in chosen]
+        if not pg_model["props"]:
+            del wd.nodes[obj_uid]["pgs"][pg_uid]
         self.touch()
         del obj, pg, ents
         return True
